@@ -36,6 +36,7 @@ type Interpreter struct {
 	rateCounters  map[string]*value.Ratecounter
 	penaltyBoxes  map[string]*value.Penaltybox
 	callStack     []*ast.SubroutineDeclaration
+	includeStack  map[string]struct{} // modules being included, in order to detect circular include
 	Debugger      Debugger
 	IdentResolver func(v string) value.Value
 
@@ -45,6 +46,7 @@ type Interpreter struct {
 func New(options ...context.Option) *Interpreter {
 	return &Interpreter{
 		options:      options,
+		includeStack: make(map[string]struct{}),
 		cache:        cache.New(),
 		rateCounters: make(map[string]*value.Ratecounter),
 		penaltyBoxes: make(map[string]*value.Penaltybox),
@@ -81,6 +83,14 @@ func (i *Interpreter) SetScope(scope context.Scope) {
 }
 
 func (i *Interpreter) restart() error {
+	// Restart can be also made by return(restart) so we need to check restart count limit here
+	if i.ctx.Restarts+1 > limitations.MaxVarnishRestarts {
+		return errors.WithStack(exception.Runtime(
+			nil,
+			"Max restart limit exceeded. Requests are limited to %d restarts",
+			limitations.MaxVarnishRestarts,
+		))
+	}
 	i.ctx.Restarts++
 	i.Debugger.Message(fmt.Sprintf("Restarted (%d) time", i.ctx.Restarts))
 	i.ctx.BackendRequest = nil
@@ -267,7 +277,8 @@ func (i *Interpreter) ProcessDeclarations(statements []ast.Statement) error {
 		if v, ok := i.ctx.Tables[name]; ok {
 			// If EdgeDictionary already defined, inject items.
 			// Edge Dictionary value type must be STRING
-			if v.ValueType.Value != "STRING" {
+			// Table value type is optional, STRING type is used if omitted
+			if v.ValueType != nil && v.ValueType.Value != "STRING" {
 				return exception.System("EdgeDictionary injection error: %s value type is not STRING", v.Name.Value)
 			}
 			i.InjectEdgeDictionaryItem(v, dict)
